@@ -10,7 +10,10 @@ Not decided: block pairing arithmetic inside the _meta_* functions, numerical co
 """
 from __future__ import annotations
 
+import ast
+
 from . import e3
+from ..core import astutil as A
 
 EXPLANATION = (
     "Index-space typing (abstract interpretation on the CFG of every tensor-layer function): each leg index is typed META "
@@ -42,9 +45,31 @@ def run(chk):
 
     e3.run_I5(chk, ("yastn.tensor", "yastn.initialize"))
     run_B3(chk)
+    run_B4(chk)
     e3.run_I6(chk, ("yastn.tensor", "yastn.initialize"))
     from . import e10
+    e3.run_I10(chk, ("yastn.tensor",))
     e10.run_U(chk, ("yastn.tensor", "yastn.initialize"), floor1=5, floor2=1)
+
+
+def run_B4(chk):
+    """B4: the element-wise kernels with a `cutoff` (rsqrt, reciprocal) invert the elements whose *magnitude* exceeds it: every comparison with
+    `cutoff` has abs(data) on the other side.  Comparing the signed (or complex) value zeroes every negative element, however large."""
+    prog = chk.prog
+    chk.rule("B4", "element-wise kernels with a cutoff compare the magnitude of the data with it", floor=2)
+    m = prog.modules["yastn.backend.backend_np"]
+    for f in prog.all_funcs():
+        if f.module is not m or "cutoff" not in f.params:
+            continue
+        inl = A.Inliner(f.node)
+        for c in ast.walk(f.node):
+            if isinstance(c, ast.Compare) and len(c.ops) == 1 and any(isinstance(x, ast.Name) and x.id == "cutoff" for x in ast.walk(c)):
+                other = c.left if any(isinstance(x, ast.Name) and x.id == "cutoff" for x in ast.walk(c.comparators[0])) else c.comparators[0]
+                o = inl.expand(other)
+                mag = isinstance(o, ast.Call) and (A.call_name(o) or "").split(".")[-1] in ("abs", "absolute")
+                chk.verdict("B4", (f, c), f"{f.name}: `{A.text(c)}`", True if mag else False,
+                            f"backend kernel {f.name}(): `{A.text(c)}` compares the signed value with the cutoff: negative (and complex with non-positive real part) "
+                            f"elements are treated as below the cutoff and set to zero instead of being inverted, also for cutoff=0")
 
 
 def run_B3(chk):
@@ -94,6 +119,8 @@ def run_B3(chk):
                 f"whenever both operands own a private block of equal size between two common ones" if bad else "")
 
 MUTANTS = [
+    ('vdot: charge of the contraction taken between the two conjugations', [('yastn/tensor/_contractions.py', '    if conj[1] == 1:\n        b = b.conj()\n\n', '    n_c = a.config.sym.add_charges(a.struct.n, b.struct.n)\n    if conj[1] == 1:\n        b = b.conj()\n\n'), ('yastn/tensor/_contractions.py', '    n_c = a.config.sym.add_charges(a.struct.n, b.struct.n)\n    if n_c == a.config.sym.zero():', '    if n_c == a.config.sym.zero():')], 'I10'),
+    ('reciprocal compares the signed value with the cutoff', 'yastn/backend/backend_np.py', '    ind = np.abs(data) > cutoff\n    res[ind] = 1. / data[ind]', '    ind = data > cutoff\n    res[ind] = 1. / data[ind]', 'B4'),
     ('single operand returned before the amplitudes are applied', 'yastn/tensor/_algebra.py', '        tensors = [v * amp if amp is not None else v for v, amp in zip(tensors, amplitudes)]\n\n    if len(tensors) == 1:\n        return tensors[0]\n', '    if len(tensors) == 1:\n        return tensors[0]\n\n    if amplitudes is not None:\n        tensors = [v * amp if amp is not None else v for v, amp in zip(tensors, amplitudes)]\n', 'U7'),
     ('slices merged across equal gaps', 'yastn/tensor/_auxiliary.py', '        if tmp_a[1] == sl_a[0] and tmp_b[1] == sl_b[0]:', '        if sl_a[0] - tmp_a[1] == sl_b[0] - tmp_b[1]:', 'B3'),
     ('__contains__ in storage order', 'yastn/tensor/_output.py', '    nsym = a.config.sym.NSYM\n    if len(key) == a.ndim_n * nsym:  # key follows the order of tensor legs; account for lazy transpose, as in __getitem__\n        key = sum((key[n * nsym: (n + 1) * nsym] for n in np.argsort(a.trans).tolist()), ())\n    return key in a.struct.t', '    return key in a.struct.t', 'I9'),
